@@ -4,15 +4,25 @@ import SafeNet.Gen.Lifecycle
 
 `World = Registry × OS`. Each operation of the node manager is written as the exact sequence of
 `ServiceControl` / `RpcActions` calls that the Rust makes (`ant-node-manager/src/lib.rs`
-`ServiceManager::{start,stop,remove,upgrade}`, `refresh_node_registry`; `add_services/mod.rs` `add_node`;
+`ServiceManager::{start,stop,remove,upgrade}`, `refresh_node_registry` (partial and full), `status_report`;
+`add_services/mod.rs` `add_node`; `rpc.rs` `restart_node_service` (the daemon's restart path);
 `ant-service-management/src/node.rs` `on_start/on_stop/on_remove`), with early exits on failure. Every fallible
-call consumes one bit of the fault oracle (`Fx.pop`); a faulted call returns an error and has no effect.
+call consumes one entry of the fault oracle (`Fx.pop`), which has three outcomes: the call works (`ok`), it returns an
+error and has no effect (`fail`), or it returns an error AFTER having had its effect (`failAfter`: `start` launched
+the process and then reported failure, `stop` killed it, `uninstall` removed / `install` wrote the definition,
+`get_available_port` consumed the port; an RPC query has no effect, there `failAfter` = `fail`).
 `get_process_pid` is an observation of the process table (`OS.lookup`) and is not subject to faults.
 
 Service identity: the service name is `antnode{number}`, its data directory `<base>/antnode{number}` and its
 binary `<data dir>/antnode`, so name, directory and binary path are all represented by `number`.
-The numbering rule (`startNumber`), whether `on_stop` clears the pid and whether `on_start` writes before or after
-its RPC calls are read from the Rust source by `rs2lean` (`Gen/Lifecycle.lean`).
+The numbering rules (`startNumber`, `restartNumber`), whether `on_stop` clears the pid, whether `on_start` writes before
+or after its RPC calls and whether the daemon's restart records a replacement service whose first start failed are read
+from the Rust source by `rs2lean` (`Gen/Lifecycle.lean`).
+
+Node RPC: every service definition carries the RPC port of its registry entry; a call to an RPC port is answered by
+the oldest live process launched with that port (`OS.rpcOwner`: the first to bind wins — the daemon's restart without
+retained peer id gives the replacement service the RPC address of the service it replaces). `node_info` reports the
+owner's pid and the peer id of the owner's service (a function of the service number: the key lives in the data dir).
 -/
 namespace SafeNet.Lifecycle
 
@@ -31,17 +41,25 @@ structure Svc where
   version : Nat
   /-- `connected_peers`, as a count (`None` until a full `on_start`, `None` again after `on_stop`) -/
   peers : Option Nat
+  /-- `peer_id`, as the number of the service the id belongs to (`None` until a full `on_start`; never cleared) -/
+  peer : Option Nat
+  /-- the UDP port of `listen_addr` (`get_antnode_port`): written by every full `on_start` (`None` if the node reported
+  no listener), never cleared; the daemon's restart reinstalls the service with this as `--port` -/
+  lport : Option Nat
 deriving DecidableEq, Repr
 
 structure Proc where
   pid : Nat
   svc : Nat
   port : Nat
+  /-- the RPC port of the service definition the process was launched from -/
+  rpc : Nat
 deriving DecidableEq, Repr
 
-/-- The simulated OS: service definitions (number ↦ configured `--port`), live processes, data directories. -/
+/-- The simulated OS: service definitions (number ↦ configured `--port`, `--rpc` port), live processes, data
+directories. -/
 structure OS where
-  installed : List (Nat × Option Nat)
+  installed : List (Nat × Option Nat × Nat)
   procs : List Proc
   nextPid : Nat
   nextPort : Nat
@@ -57,15 +75,20 @@ deriving Repr
 def OS.init : OS := ⟨[], [], 100, 30000, [], []⟩
 def World.init : World := ⟨[], OS.init⟩
 
-/-- Fault oracle: one bit per fallible call (missing bits = no fault) and the number of calls made. -/
+/-- What the fault oracle says about one fallible call. -/
+inductive Fault where
+  | ok | fail | failAfter
+deriving DecidableEq, Repr
+
+/-- Fault oracle: one entry per fallible call (missing entries = no fault) and the number of calls made. -/
 structure Fx where
-  faults : List Bool
+  faults : List Fault
   calls : Nat
 deriving Repr
 
-def Fx.pop (f : Fx) : Bool × Fx :=
+def Fx.pop (f : Fx) : Fault × Fx :=
   match f.faults with
-  | [] => (false, ⟨[], f.calls + 1⟩)
+  | [] => (.ok, ⟨[], f.calls + 1⟩)
   | b :: r => (b, ⟨r, f.calls + 1⟩)
 
 structure Res where
@@ -82,15 +105,21 @@ def OS.lookup (os : OS) (n : Nat) : Option Proc := os.procs.find? (fun p => p.sv
 def OS.isInstalled (os : OS) (n : Nat) : Bool := os.installed.any (fun e => e.1 = n)
 def OS.cfgPort (os : OS) (n : Nat) : Option Nat :=
   match os.installed.find? (fun e => e.1 = n) with
-  | some e => e.2
+  | some e => e.2.1
   | none => none
+def OS.cfgRpc (os : OS) (n : Nat) : Option Nat :=
+  match os.installed.find? (fun e => e.1 = n) with
+  | some e => some e.2.2
+  | none => none
+/-- Who answers on an RPC port: the oldest live process launched with it. -/
+def OS.rpcOwner (os : OS) (rpc : Nat) : Option Proc := os.procs.find? (fun p => p.rpc = rpc)
 
 /-- `ServiceControl::start` after the fault check; `none` = no such service definition. -/
 def osStart (os : OS) (n : Nat) : Option OS :=
   if !os.isInstalled n then none
   else if (os.lookup n).isSome || os.flaky.contains n then some os
   else some { os with
-    procs := os.procs ++ [⟨os.nextPid, n, (os.cfgPort n).getD (40000 + os.nextPid)⟩],
+    procs := os.procs ++ [⟨os.nextPid, n, (os.cfgPort n).getD (40000 + os.nextPid), (os.cfgRpc n).getD 0⟩],
     nextPid := os.nextPid + 1 }
 
 def osStop (os : OS) (n : Nat) : Option OS :=
@@ -102,8 +131,8 @@ def osUninstall (os : OS) (n : Nat) : Option OS :=
   if !os.isInstalled n then none
   else some { os with installed := os.installed.filter (fun e => e.1 ≠ n) }
 
-def osInstall (os : OS) (n : Nat) (port : Option Nat) : OS :=
-  { os with installed := os.installed.filter (fun e => e.1 ≠ n) ++ [(n, port)] }
+def osInstall (os : OS) (n : Nat) (port : Option Nat) (rpc : Nat) : OS :=
+  { os with installed := os.installed.filter (fun e => e.1 ≠ n) ++ [(n, port, rpc)] }
 
 def osKill (os : OS) (n : Nat) : OS := { os with procs := os.procs.filter (fun p => p.svc ≠ n) }
 
@@ -112,9 +141,10 @@ crash + restart). Nothing happens if the service has no process. -/
 def osRestart (os : OS) (n : Nat) : OS :=
   match os.lookup n with
   | none => os
-  | some _ =>
+  | some q =>
     { os with
-      procs := os.procs.filter (fun p => p.svc ≠ n) ++ [⟨os.nextPid, n, (os.cfgPort n).getD (40000 + os.nextPid)⟩],
+      procs := os.procs.filter (fun p => p.svc ≠ n) ++
+        [⟨os.nextPid, n, (os.cfgPort n).getD (40000 + os.nextPid), (os.cfgRpc n).getD q.rpc⟩],
       nextPid := os.nextPid + 1 }
 
 /-- What the fake node RPC reports in `network_info`, as a function of the pid: number of connected peers
@@ -131,45 +161,48 @@ def onStop (s : Svc) : Svc :=
 def rpcErrSvc (s : Svc) (pid : Nat) : Svc :=
   if Gen.Lifecycle.onStartWritesAfterRpc then s else { s with status := .running, pid := some pid }
 
-/-- One RPC call: fault bit first, then the call fails if the node process is not alive. -/
-def rpcCall (os : OS) (n : Nat) (fx : Fx) (faultTxt : String) : Fx × Option String :=
+/-- One RPC call to port `rpc`: fault bit first, then the call fails if no live process owns the port. -/
+def rpcCall (os : OS) (rpc : Nat) (fx : Fx) (faultTxt : String) : Fx × Option String :=
   let (b, fx) := fx.pop
-  if b then (fx, some faultTxt)
-  else match os.lookup n with
+  if b ≠ .ok then (fx, some faultTxt)
+  else match os.rpcOwner rpc with
     | none => (fx, some "svc:RpcConnectionError")
     | some _ => (fx, none)
 
-/-- `on_start(Some(pid), full_refresh = true)`: nothing is written unless every RPC call succeeded. -/
+/-- `on_start(Some(pid), full_refresh = true)`: nothing is written unless every RPC call succeeded; then the pid
+handed in, and from the answers of the RPC port's owner: peer id, connected peers, listeners (`listen_addr`, and the
+node port if a listener is reported). A failing `network_info` surfaces as `RpcNodeInfoError` (`RpcClient` maps it so). -/
 def onStartFull (s : Svc) (os : OS) (fx : Fx) (pid : Nat) (ct : Bool) : Svc × Fx × Option String :=
-  let (fx, e0) := if ct then rpcCall os s.number fx "svc:RpcConnectionError" else (fx, none)
+  let (fx, e0) := if ct then rpcCall os s.rpcPort fx "svc:RpcConnectionError" else (fx, none)
   match e0 with
   | some e => (rpcErrSvc s pid, fx, some e)
   | none =>
-    let (fx, e1) := rpcCall os s.number fx "svc:RpcNodeInfoError"
+    let (fx, e1) := rpcCall os s.rpcPort fx "svc:RpcNodeInfoError"
     match e1 with
     | some e => (rpcErrSvc s pid, fx, some e)
     | none =>
-      let (fx, e2) := rpcCall os s.number fx "svc:RpcNetworkInfoError"
+      let (fx, e2) := rpcCall os s.rpcPort fx "svc:RpcNodeInfoError"
       match e2 with
       | some e => (rpcErrSvc s pid, fx, some e)
       | none =>
-        let np := match os.lookup s.number with
-          | some p => if listenersEmpty p.pid then s.nodePort else some p.port
-          | none => s.nodePort
-        let cp := match os.lookup s.number with
-          | some p => some (peersOf p.pid)
-          | none => s.peers
-        ({ s with status := .running, pid := some pid, nodePort := np, peers := cp }, fx, none)
+        match os.rpcOwner s.rpcPort with
+        | some p =>
+          ({ s with status := .running, pid := some pid,
+                    nodePort := if listenersEmpty p.pid then s.nodePort else some p.port,
+                    peers := some (peersOf p.pid), peer := some p.svc,
+                    lport := if listenersEmpty p.pid then none else some p.port }, fx, none)
+        | none => ({ s with status := .running, pid := some pid }, fx, none)
 
 /-! ## `ServiceManager` operations on one service -/
 
 def svcStart (s : Svc) (os : OS) (fx : Fx) (ct : Bool) : Svc × OS × Fx × Res :=
   if s.status = .running ∧ (os.lookup s.number).isSome then (s, os, fx, .ok) else
   let (b, fx) := fx.pop
-  if b then (s, os, fx, .err "err:svc:Io:Other") else
+  if b = .fail then (s, os, fx, .err "err:svc:Io:Other") else
   match osStart os s.number with
   | none => (s, os, fx, .err "err:svc:Io:NotFound")
   | some os =>
+    if b = .failAfter then (s, os, fx, .err "err:svc:Io:Other") else
     match os.lookup s.number with
     | none => (s, os, fx, .err "err:PidNotFoundAfterStarting")
     | some p =>
@@ -177,6 +210,11 @@ def svcStart (s : Svc) (os : OS) (fx : Fx) (ct : Bool) : Svc × OS × Fx × Res 
       match e with
       | some t => (s', os, fx, .err ("err:" ++ t))
       | none => (s', os, fx, .ok)
+
+/-- The error path of `ServiceManager::stop` (`service_control.stop` returned an error): if `stopFailChecksProcess`, the
+process is looked up again and a service whose process has gone is recorded as stopped before the error is returned. -/
+def stopFailed (s : Svc) (os : OS) : Svc :=
+  if Gen.Lifecycle.stopFailChecksProcess then (if (os.lookup s.number).isSome then s else onStop s) else s
 
 def svcStop (s : Svc) (os : OS) (fx : Fx) : Svc × OS × Fx × Res :=
   match s.status with
@@ -191,10 +229,11 @@ def svcStop (s : Svc) (os : OS) (fx : Fx) : Svc × OS × Fx × Res :=
       | none => (onStop s, os, fx, .ok)
       | some _ =>
         let (b, fx) := fx.pop
-        if b then (s, os, fx, .err "err:svc:Io:Other") else
+        if b = .fail then (stopFailed s os, os, fx, .err "err:svc:Io:Other") else
         match osStop os s.number with
-        | none => (s, os, fx, .err "err:svc:Io:NotFound")
-        | some os => (onStop s, os, fx, .ok)
+        | none => (stopFailed s os, os, fx, .err "err:svc:Io:NotFound")
+        | some os =>
+          if b = .failAfter then (stopFailed s os, os, fx, .err "err:svc:Io:Other") else (onStop s, os, fx, .ok)
 
 def svcRemove (s : Svc) (os : OS) (fx : Fx) (keep : Bool) : Svc × OS × Fx × Res :=
   if s.status = .running then
@@ -202,7 +241,10 @@ def svcRemove (s : Svc) (os : OS) (fx : Fx) (keep : Bool) : Svc × OS × Fx × R
     else (onStop s, os, fx, .err "err:ServiceStatusMismatch")
   else
     let (b, fx) := fx.pop
-    if b then (s, os, fx, .err "err:svc:Io:Other") else
+    if b = .fail then (s, os, fx, .err "err:svc:Io:Other") else
+    -- (no definition: `ServiceRemovedManually`, which `remove` skips over)
+    if b = .failAfter ∧ os.isInstalled s.number then
+      ((s, (osUninstall os s.number).getD os, fx, .err "err:svc:Io:Other") : Svc × OS × Fx × Res) else
     let os := (osUninstall os s.number).getD os
     let os := if keep then os else { os with dirs := os.dirs.filter (fun d => d ≠ s.number) }
     ({ s with status := .removed }, os, fx, .ok)
@@ -217,13 +259,15 @@ def svcUpgrade (s : Svc) (os : OS) (fx : Fx) (force start : Bool) (ver : Nat) (c
   if r.failed then (s, os, fx, r) else
   if !os.dirs.contains s.number then (s, os, fx, .err "err:Io:NotFound") else
   let (b, fx) := fx.pop
-  if b then (s, os, fx, .err "err:svc:Io:Other") else
+  if b = .fail then (s, os, fx, .err "err:svc:Io:Other") else
   match osUninstall os s.number with
   | none => (s, os, fx, .err "err:svc:ServiceRemovedManually")
   | some os =>
+    if b = .failAfter then (s, os, fx, .err "err:svc:Io:Other") else
     let (b, fx) := fx.pop
-    if b then (s, os, fx, .err "err:svc:Io:Other") else
-    let os := osInstall os s.number s.nodePort
+    if b = .fail then (s, os, fx, .err "err:svc:Io:Other") else
+    let os := osInstall os s.number s.nodePort s.rpcPort
+    if b = .failAfter then (s, os, fx, .err "err:svc:Io:Other") else
     if start then
       match svcStart s os fx ct with
       | (s', os, fx, r) =>
@@ -242,18 +286,68 @@ def svcRefresh (os : OS) (s : Svc) : Svc :=
     | .removed => s
     | _ => onStop s
 
-/-- `refresh_node_registry(.., full_refresh = true, ..)` as `antctl status` calls it. The function builds a real
-`RpcClient` itself; in the harness world no node RPC endpoint is served, so `on_start(pid, true)` fails with
-`RpcConnectionError` at the first entry whose process is alive and the `?` leaves the loop there; entries before it
-(no process) are treated as in the partial refresh. Returns the registry and whether it failed. -/
-def refreshFull (os : OS) : List Svc → List Svc × Bool
-  | [] => ([], false)
-  | s :: r =>
+/-- `refresh_node_registry(.., full_refresh = true, ..)` as `status_report` (`antctl status`) calls it: entry by entry,
+`get_process_pid`, then for a live process `on_start(Some(pid), true)` through a `RpcClient` built from the recorded RPC
+address (two RPC calls, each consuming a fault bit), for a dead one the same as the partial refresh. A failing RPC
+leaves the loop (`?`): entries before it are refreshed, the failing one and those after it are untouched. -/
+def refreshFull (os : OS) : List Svc → Fx → List Svc × Fx × Option String
+  | [], fx => ([], fx, none)
+  | s :: r, fx =>
     match os.lookup s.number with
-    | some p => (rpcErrSvc s p.pid :: r, true)
+    | some p =>
+      match onStartFull s os fx p.pid false with
+      | (s', fx, some e) => (s' :: r, fx, some e)
+      | (s', fx, none) =>
+        match refreshFull os r fx with
+        | (r', fx, e) => (s' :: r', fx, e)
     | none =>
-      match refreshFull os r with
-      | (r', f) => (svcRefresh os s :: r', f)
+      match refreshFull os r fx with
+      | (r', fx, e) => (svcRefresh os s :: r', fx, e)
+
+/-! ## `restart_node_service` (the daemon, `antctld`) -/
+
+/-- `retain_peer_id = true`: stop, uninstall, reinstall with the recorded settings (`--port` from `listen_addr`, no
+metrics port), start — through a fresh `ServiceManager`, no connection timeout. `s` is the entry found by peer id. -/
+def svcRestartRetain (s : Svc) (os : OS) (fx : Fx) : Svc × OS × Fx × Res :=
+  match svcStop s os fx with
+  | (s1, os, fx, r) =>
+  if r.failed then (s1, os, fx, r) else
+  let (b, fx) := fx.pop
+  if b = .fail then (s1, os, fx, .err "err:uninstall") else
+  match osUninstall os s1.number with
+  | none => (s1, os, fx, .err "err:uninstall")
+  | some os =>
+    if b = .failAfter then (s1, os, fx, .err "err:uninstall") else
+    let (b, fx) := fx.pop
+    if b = .fail then (s1, os, fx, .err "err:install") else
+    if b = .failAfter then (s1, osInstall os s1.number s.lport s1.rpcPort, fx, .err "err:install") else
+    svcStart s1 (osInstall os s1.number s.lport s1.rpcPort) fx false
+
+/-- `let new_node_number = ..`: the number of the replacement service. -/
+def restartNumber (reg : List Svc) : Nat :=
+  if Gen.Lifecycle.restartNumberFromMax then reg.foldl (fun m s => max m s.number) 0 + 1 else reg.length + 1
+
+def mkDir (os : OS) (num : Nat) : OS :=
+  { os with dirs := if os.dirs.contains num then os.dirs else os.dirs ++ [num] }
+
+/-- `retain_peer_id = false`, after the old service `s1` was stopped: directories and binary for service `num`,
+install (same RPC address as the old service, no node / metrics port), start; the new entry is pushed to the registry
+after a successful start — and, if `restartRecordsFailedStart`, also after a failed one (it stays `Added`). -/
+def restartFresh (num : Nat) (s1 : Svc) (os : OS) (fx : Fx) : Option Svc × OS × Fx × Res :=
+  let os := mkDir os num
+  let (b, fx) := fx.pop
+  if b = .fail then (none, os, fx, .err "err:install") else
+  if b = .failAfter then (none, osInstall os num none s1.rpcPort, fx, .err "err:install") else
+  match svcStart ⟨num, .added, none, none, none, s1.rpcPort, s1.version, none, none, none⟩
+      (osInstall os num none s1.rpcPort) fx false with
+  | (node, os, fx, r) =>
+    if r.failed then ((if Gen.Lifecycle.restartRecordsFailedStart then some node else none), os, fx, r)
+    else (some node, os, fx, r)
+
+/-- The first entry recording peer id `k` (`nodes.iter_mut().find(..)`). -/
+def findPeer (k : Nat) : List Svc → Option Nat
+  | [] => none
+  | t :: r => if t.peer = some k then some 0 else (findPeer k r).map (· + 1)
 
 /-! ## `add_node` -/
 
@@ -282,7 +376,8 @@ def startNumber (reg : List Svc) : Nat :=
 /-- `get_available_port` -/
 def allocPort (w : World) (fx : Fx) : Option Nat × World × Fx :=
   let (b, fx) := fx.pop
-  if b then (none, w, fx)
+  if b = .fail then (none, w, fx)
+  else if b = .failAfter then (none, { w with os := { w.os with nextPort := w.os.nextPort + 1 } }, fx)
   else (some w.os.nextPort, { w with os := { w.os with nextPort := w.os.nextPort + 1 } }, fx)
 
 structure AddAcc where
@@ -312,21 +407,21 @@ def addPorts (mp rp : Option Nat) (metrics : Bool) (w : World) (fx : Fx) :
         | (some p, w, fx) => (some (rpcP, some p), w, fx)
       else (some (rpcP, none), w, fx)
 
-def mkDir (os : OS) (num : Nat) : OS :=
-  { os with dirs := if os.dirs.contains num then os.dirs else os.dirs ++ [num] }
-
 /-- One iteration of the `while node_number <= target_node_count` loop for service number `num`. -/
 def addOne (num : Nat) (np mp rp : Option Nat) (metrics : Bool) (ver : Nat) (a : AddAcc) : AddAcc :=
   match addPorts mp rp metrics a.w a.fx with
   | (none, w, fx) => { a with w := w, fx := fx, aborted := true }
   | (some (rpcP, metP), w, fx) =>
     match fx.pop with
-    | (true, fx) => { a with w := ⟨w.reg, mkDir w.os num⟩, fx := fx, failed := a.failed ++ [num] }
-    | (false, fx) =>
+    | (.fail, fx) => { a with w := ⟨w.reg, mkDir w.os num⟩, fx := fx, failed := a.failed ++ [num] }
+    | (.failAfter, fx) =>
+      -- the definition was written, then `install` reported failure: nothing is recorded
+      { a with w := ⟨w.reg, osInstall (mkDir w.os num) num np rpcP⟩, fx := fx, failed := a.failed ++ [num] }
+    | (.ok, fx) =>
       { a with
-        w := ⟨w.reg ++ [⟨num, .added, none, np, metP, rpcP, ver, none⟩], osInstall (mkDir w.os num) num np⟩,
+        w := ⟨w.reg ++ [⟨num, .added, none, np, metP, rpcP, ver, none, none, none⟩], osInstall (mkDir w.os num) num np rpcP⟩,
         fx := fx, added := a.added ++ [num],
-        file := w.reg ++ [⟨num, .added, none, np, metP, rpcP, ver, none⟩] }
+        file := w.reg ++ [⟨num, .added, none, np, metP, rpcP, ver, none, none, none⟩] }
 
 /-- The loop, `k` iterations left; a failed port allocation (`?`) leaves the function at once. -/
 def addLoop : Nat → Nat → Option Nat → Option Nat → Option Nat → Bool → Nat → AddAcc → AddAcc
@@ -361,68 +456,17 @@ def addNode (w : World) (fx : Fx) (file : List Svc) (count : Nat) (np mp rp : Op
     else if !a.failed.isEmpty then (a.w, a.fx, .err "err:partial", a.file)
     else (a.w, a.fx, .ok ("ok:[" ++ joinNats a.added ++ "]"), a.file)
 
-/-! ## Abstract serialisation of the registry (`NodeRegistry::save` / `load`) -/
-
-def encOpt : Option Nat → List Nat
-  | none => [0]
-  | some p => [1, p]
-
-def Status.code : Status → Nat
-  | .added => 0 | .running => 1 | .stopped => 2 | .removed => 3
-
-def encSvc (s : Svc) : List Nat :=
-  [s.number, s.status.code] ++ encOpt s.pid ++ encOpt s.nodePort ++ encOpt s.metricsPort ++ [s.rpcPort, s.version] ++
-    encOpt s.peers
-
-def encode : List Svc → List Nat
-  | [] => [0]
-  | s :: r => 1 :: (encSvc s ++ encode r)
-
-def decOpt : List Nat → Option (Option Nat × List Nat)
-  | 0 :: r => some (none, r)
-  | 1 :: p :: r => some (some p, r)
-  | _ => none
-
-def decStatus : Nat → Option Status
-  | 0 => some .added | 1 => some .running | 2 => some .stopped | 3 => some .removed | _ => none
-
-def decSvc : List Nat → Option (Svc × List Nat)
-  | num :: st :: r =>
-    match decStatus st, decOpt r with
-    | some st, some (pid, r) =>
-      match decOpt r with
-      | some (np, r) =>
-        match decOpt r with
-        | some (mp, rp :: ver :: r) =>
-          match decOpt r with
-          | some (cp, r) => some (⟨num, st, pid, np, mp, rp, ver, cp⟩, r)
-          | none => none
-        | _ => none
-      | none => none
-    | _, _ => none
-  | _ => none
-
-/-- Decoder with fuel (the number of tokens bounds the number of entries). -/
-def decodeFuel : Nat → List Nat → Option (List Svc)
-  | _, [0] => some []
-  | fuel + 1, 1 :: r =>
-    match decSvc r with
-    | some (s, r) => (decodeFuel fuel r).map (s :: ·)
-    | none => none
-  | _, _ => none
-
-def decode (ts : List Nat) : Option (List Svc) := decodeFuel ts.length ts
-
 /-! ## Operations and the step function -/
 
 inductive Op where
-  | add (count : Nat) (np mp rp : Option (Nat × Nat)) (metrics : Bool) (ver : Nat) (faults : List Bool)
-  | start (i : Nat) (ct : Bool) (faults : List Bool)
-  | stop (i : Nat) (faults : List Bool)
-  | remove (i : Nat) (keep : Bool) (faults : List Bool)
-  | upgrade (i : Nat) (force start : Bool) (ver : Nat) (ct : Bool) (faults : List Bool)
+  | add (count : Nat) (np mp rp : Option (Nat × Nat)) (metrics : Bool) (ver : Nat) (faults : List Fault)
+  | start (i : Nat) (ct : Bool) (faults : List Fault)
+  | stop (i : Nat) (faults : List Fault)
+  | remove (i : Nat) (keep : Bool) (faults : List Fault)
+  | upgrade (i : Nat) (force start : Bool) (ver : Nat) (ct : Bool) (faults : List Fault)
   | refresh
-  | refreshFull
+  | refreshFull (fail : Bool) (faults : List Fault)
+  | drestart (i : Nat) (retain : Bool) (faults : List Fault)
   | restartOutside (i : Nat)
   | kill (i : Nat)
   | flaky (i : Nat) (on : Bool)
@@ -430,13 +474,26 @@ inductive Op where
 deriving Repr
 
 /-- Apply a one-service operation to registry entry `i`. -/
-def onSvc (w : World) (i : Nat) (faults : List Bool) (f : Svc → OS → Fx → Svc × OS × Fx × Res) :
+def onSvc (w : World) (i : Nat) (faults : List Fault) (f : Svc → OS → Fx → Svc × OS × Fx × Res) :
     World × Res × Nat :=
   match w.reg[i]? with
   | none => (w, .err "err:no-such-service", 0)
   | some s =>
     match f s w.os ⟨faults, 0⟩ with
     | (s', os', fx, r) => (⟨w.reg.set i s', os'⟩, r, fx.calls)
+
+/-- `restart_node_service` on entry `j` (the entry found by peer id). -/
+def restartAt (w : World) (j : Nat) (retain : Bool) (faults : List Fault) : World × Res × Nat :=
+  match w.reg[j]? with
+  | none => (w, .err "err:peer-not-found", 0)
+  | some s =>
+    if retain then onSvc w j faults svcRestartRetain
+    else
+      match svcStop s w.os ⟨faults, 0⟩ with
+      | (s1, os, fx, r) =>
+        if r.failed then (⟨w.reg.set j s1, os⟩, r, fx.calls) else
+        match restartFresh (restartNumber w.reg) s1 os fx with
+        | (new, os, fx, r) => (⟨w.reg.set j s1 ++ new.toList, os⟩, r, fx.calls)
 
 def exec (w : World) : Op → World × Res × Nat
   | .add count np mp rp metrics ver faults =>
@@ -447,9 +504,23 @@ def exec (w : World) : Op → World × Res × Nat
   | .remove i keep faults => onSvc w i faults (fun s os fx => svcRemove s os fx keep)
   | .upgrade i force start ver ct faults => onSvc w i faults (fun s os fx => svcUpgrade s os fx force start ver ct)
   | .refresh => (⟨w.reg.map (svcRefresh w.os), w.os⟩, .ok, 0)
-  | .refreshFull =>
-    match refreshFull w.os w.reg with
-    | (reg, failed) => (⟨reg, w.os⟩, if failed then .err "err:svc:RpcConnectionError" else .ok, 0)
+  | .refreshFull fail faults =>
+    match refreshFull w.os w.reg ⟨faults, 0⟩ with
+    | (reg, fx, some e) => (⟨reg, w.os⟩, .err ("err:" ++ e), fx.calls)
+    | (reg, fx, none) =>
+      -- `status_report(.., fail)`: an error if any service is not Running (after the refresh went through)
+      (⟨reg, w.os⟩, if fail && reg.any (fun s => s.status ≠ .running) then .err "err:ServiceNotRunning" else .ok, fx.calls)
+  | .drestart i retain faults =>
+    -- the daemon is asked by peer id: the harness hands in the id recorded for entry `i`
+    match w.reg[i]? with
+    | none => (w, .err "err:no-such-service", 0)
+    | some s0 =>
+      match s0.peer with
+      | none => (w, .err "err:peer-not-found", 0)
+      | some k =>
+        match findPeer k w.reg with
+        | none => (w, .err "err:peer-not-found", 0)
+        | some j => restartAt w j retain faults
   | .restartOutside i =>
     match w.reg[i]? with
     | none => (w, .err "err:no-such-service", 0)
@@ -464,10 +535,10 @@ def exec (w : World) : Op → World × Res × Nat
     | some s =>
       let fl := w.os.flaky.filter (fun n => n ≠ s.number)
       (⟨w.reg, { w.os with flaky := if on then fl ++ [s.number] else fl }⟩, .ok, 0)
-  | .saveload =>
-    match decode (encode w.reg) with
-    | some reg => (⟨reg, w.os⟩, .ok, 0)
-    | none => (w, .err "err:load", 0)
+  -- `registry := load(save(registry))`. The model has no serialisation of its own: that the real serde JSON round
+  -- trip is the identity on `NodeRegistry` is established by the harness (oracle clause save-load-identity on the real
+  -- save/load after every operation, and this op's correspondence: a lossy round trip changes the dump), not in Lean.
+  | .saveload => (w, .ok, 0)
 
 def step (w : World) (op : Op) : World := (exec w op).1
 def result (w : World) (op : Op) : Res := (exec w op).2.1
@@ -477,8 +548,10 @@ def run (w : World) (ops : List Op) : World := ops.foldl step w
 /-! ## The registry file as an observable
 
 `Sys` = the in-memory world plus the content of the registry file. The file changes exactly where the code saves:
-inside `add_node` after every completed install, and in the callers (`cmd/node.rs`): `add`, `start`, `stop`, `remove`
-save after a successful operation only, `upgrade` saves whatever the outcome; a bare refresh does not save.
+inside `add_node` after every completed install, and in the callers (`cmd/node.rs`): `add`, `start`, `stop`, `remove`,
+`status` (the full refresh) save after a successful operation only, `upgrade` saves whatever the outcome; a bare partial
+refresh does not save. The daemon's `restart_handler` saves whatever the outcome of `restart_node_service` (it loads
+the registry from the file per request: histories put a `reload` in front).
 `reload` drops the in-memory registry and continues from the file (the next `antctl` invocation). -/
 
 structure Sys where
@@ -500,6 +573,8 @@ def callerSaves (w : World) : Op → Res → Bool
   | .stop .., r => !r.failed
   | .remove .., r => !r.failed
   | .upgrade i .., _ => (w.reg[i]?).isSome
+  | .drestart i .., _ => (w.reg[i]?).isSome
+  | .refreshFull .., r => !r.failed
   | .saveload, r => !r.failed
   | _, _ => false
 
